@@ -440,6 +440,8 @@ pub struct SimConfig {
     pub prefill_reserve: u32,
     pub prefill_max: u32,
     pub journal_dir: PathBuf,
+    /// Some(work dir): workers run tasks with the real `HqTaskLauncher` (real processes)
+    pub real_launcher: Option<PathBuf>,
 }
 
 pub struct Sim {
@@ -745,7 +747,12 @@ impl Sim {
 
     pub fn connect_worker(&mut self, spec: &WorkerSpec) -> Wid {
         self.worker_serial += 1;
-        let configuration = conv::worker_configuration(spec, self.worker_serial);
+        let mut configuration = conv::worker_configuration(spec, self.worker_serial);
+        if let Some(dir) = &self.cfg.real_launcher {
+            configuration.work_dir = dir.clone();
+        }
+        let real_launcher = self.cfg.real_launcher.is_some();
+        let server_uid = self.server_uid.clone();
         let now = self.now();
         let (worker_id, mut from_server_rx) =
             self.inc.server.connect_worker(configuration.clone(), now);
@@ -759,6 +766,9 @@ impl Sim {
         let shared = self.shared.clone();
         let (a2, i2, t2) = (arm_fail.clone(), inert.clone(), time_limits.clone());
         let (sim, from_worker_rx) = SimWorker::new(&registration, configuration, move |_, id| {
+            if real_launcher {
+                return Box::new(hyperqueue::worker::start::HqTaskLauncher::new(hyperqueue::worker::streamer::StreamerRef::new(&server_uid, id)));
+            }
             Box::new(FakeLauncher {
                 shared,
                 w: id.as_num(),
@@ -1102,6 +1112,19 @@ impl Sim {
         let c = &mut self.clients[client];
         c.state = ClientState::Waiting;
         c.pending = Some(req.clone());
+        c.pending_since = step;
+        let _ = c.req_tx.unbounded_send(Ok(msg));
+    }
+
+    /// Sends a message built by the caller (used by the launcher lab for submits with programs).
+    pub fn client_raw(&mut self, client: usize, msg: FromClientMessage) {
+        while self.clients.len() <= client {
+            self.new_client();
+        }
+        let step = self.shared.borrow().step;
+        let c = &mut self.clients[client];
+        c.state = ClientState::Waiting;
+        c.pending = None;
         c.pending_since = step;
         let _ = c.req_tx.unbounded_send(Ok(msg));
     }
